@@ -43,6 +43,7 @@ type Renderer struct {
 	FpOps      int
 	Axioms     []Axiom
 	anchors    []float64
+	i2fs       [][2]string
 	grid       []gridNode
 }
 
@@ -584,7 +585,38 @@ func (r *Renderer) rounded(t *Term, exact string, intValued bool, linear bool) s
 	return name
 }
 
+// opMonotone: pairwise monotonicity between two rounded operations of the same kind
+// (correct rounding is monotone, so ordered operands give ordered results).  All implications
+// are linear in the solver variables: this is what relational (two-run) properties need.
+func (r *Renderer) opMonotone(op, res, a, b string) {
+	for _, o := range r.grid {
+		if o.op != op {
+			continue
+		}
+		switch op {
+		case "fadd":
+			r.axiom(1, "(=> (and (<= %s %s) (<= %s %s)) (<= %s %s))", a, o.a, b, o.b, res, o.res)
+			r.axiom(1, "(=> (and (<= %s %s) (<= %s %s)) (<= %s %s))", o.a, a, o.b, b, o.res, res)
+			r.axiom(1, "(=> (and (<= %s %s) (<= %s %s)) (<= %s %s))", a, o.b, b, o.a, res, o.res)
+			r.axiom(1, "(=> (and (<= %s %s) (<= %s %s)) (<= %s %s))", o.b, a, o.a, b, o.res, res)
+		case "fsub":
+			r.axiom(1, "(=> (and (<= %s %s) (>= %s %s)) (<= %s %s))", a, o.a, b, o.b, res, o.res)
+			r.axiom(1, "(=> (and (<= %s %s) (>= %s %s)) (<= %s %s))", o.a, a, o.b, b, o.res, res)
+		case "fmul":
+			for _, p := range [][4]string{{a, b, o.a, o.b}, {a, b, o.b, o.a}} {
+				x1, y1, x2, y2 := p[0], p[1], p[2], p[3]
+				r.axiom(1, "(=> (and (<= 0.0 %s) (<= %s %s) (<= 0.0 %s) (<= %s %s)) (<= %s %s))", x1, x1, x2, y1, y1, y2, res, o.res)
+				r.axiom(1, "(=> (and (<= 0.0 %s) (<= %s %s) (<= 0.0 %s) (<= %s %s)) (<= %s %s))", x2, x2, x1, y2, y2, y1, o.res, res)
+			}
+		case "fdiv":
+			r.axiom(1, "(=> (and (<= 0.0 %s) (<= %s %s) (< 0.0 %s) (<= %s %s)) (<= %s %s))", a, a, o.a, o.b, o.b, b, res, o.res)
+			r.axiom(1, "(=> (and (<= 0.0 %s) (<= %s %s) (< 0.0 %s) (<= %s %s)) (<= %s %s))", o.a, o.a, a, b, b, o.b, o.res, res)
+		}
+	}
+}
+
 func (r *Renderer) addGrid(t *Term, res string, a []string) {
+	r.opMonotone(t.Op, res, a[0], a[1])
 	g := gridNode{op: t.Op, res: res, a: a[0], b: a[1]}
 	if t.Args[0].IsConst() {
 		f := t.Args[0].F
@@ -780,7 +812,13 @@ func (r *Renderer) refReal(t *Term) string {
 			r.addMember(famMember{e: n, v: n, rounded: false, linear: true})
 			return n
 		}
-		return r.rounded(t, "(to_real "+a[0]+")", true, true)
+		n := r.rounded(t, "(to_real "+a[0]+")", true, true)
+		for _, o := range r.i2fs {
+			r.axiom(1, "(=> (<= %s %s) (<= %s %s))", a[0], o[0], n, o[1])
+			r.axiom(1, "(=> (<= %s %s) (<= %s %s))", o[0], a[0], o[1], n)
+		}
+		r.i2fs = append(r.i2fs, [2]string{a[0], n})
+		return n
 	case "f2i":
 		return intRes("(trunci " + a[0] + ")")
 	}
